@@ -83,12 +83,18 @@ def run(ctx, rep):
     good = len(apps) == 1
     if good:
         a = apps[0].args[0]
+        if isinstance(a, ast.Name):  # the triple may be built in a local first
+            da = [s for s in walk_nodes(w.body, ast.Assign) if utext(s.targets[0]) == a.id]
+            a = da[0].value if len(da) == 1 else a
         good = isinstance(a, ast.List) and len(a.elts) == 3 and utext(a.elts[1]) == names[1] and utext(a.elts[2]) == names[2]
-        ep = [s for s in walk_nodes(w.body, ast.Assign) if utext(s.targets[0]) == utext(a.elts[0])]
+        ep = [s for s in walk_nodes(w.body, ast.Assign) if good and utext(s.targets[0]) == utext(a.elts[0])]
         good = good and len(ep) == 1 and utext(ep[0].value) == "%s[0].publish_time_epoch" % names[1] and \
             ep[0].lineno > nexts[0].lineno and ep[0].lineno < apps[0].lineno
     rep.check(good, "R1", key(f, None, "the stream is re-queued under the epoch of its NEW head"), f, apps[0] if apps else None)
     rep.check(not loop_body_exits_early(w), "R1", key(f, None, "the merge runs until every stream is exhausted"), f)
+    muts = sorted({call_name(c) for c in body_calls if recv_text(c) == "cycles"} - {"sort", "pop", "append"})
+    rep.check(not muts, "R1", key(f, None, "inside the merge the queue of heads is only sorted, popped at the front and appended to"), f,
+              None, "other operations on it: %s" % muts)
     # initial fill: first book of every stream is kept
     init = [lp for lp in walk_nodes(f.node.body, ast.For) if utext(lp.iter) == "streams" and
             any(call_name(c) == "append" and recv_text(c) == "cycles" for c in walk_calls(lp.body))]
@@ -270,5 +276,9 @@ MUTANTS = [
     dict(id="c14-read-loop-skips", file="flumine/streams/historicalstream.py", func="FlumineHistoricalGeneratorStream._read_loop",
          old="            for update in file:\n                if listener_on_data(update):", new="            for update in file[1:]:\n                if listener_on_data(update):",
          expect=["R2"], why="first line of the file skipped"),
+    dict(id="c14-sort-hoisted", file="flumine/simulation/simulation.py", func="FlumineSimulation.run",
+         old="                        while cycles:\n                            # order by epoch\n                            cycles.sort(key=lambda x: x[0])\n",
+         new="                        cycles.sort(key=lambda x: x[0])\n                        while cycles:\n",
+         expect=["R1"], why="heads are sorted once, re-queued streams are appended behind later books"),
 ]
 MUTANTS = [m for m in MUTANTS if not m.get("skip")]
